@@ -24,14 +24,6 @@ def fmtSave (s : Array Nat) : String := "[" ++ join (s.toList.map toString) ++ "
 def fmtCaps (w : Caps) (nsave : Nat) : String :=
   "[" ++ join ((List.range nsave).map fun i => match w.get i with | some v => toString v | none => "_") ++ "]"
 
-/-- virtual extents of the sections pairwise disjoint and not wrapping (file views: `slice` and `read`
-then resolve every rva through the same section) -/
-def secsDisjoint : List Sec → Bool
-  | [] => true
-  | s :: r =>
-    s.va + max s.vs s.rs < 4294967296 &&
-    r.all (fun t => s.va + max s.vs s.rs ≤ t.va || t.va + max t.vs t.rs ≤ s.va) && secsDisjoint r
-
 def answer (S : ScanI) (coherent : Bool) (pat : List UInt8) (cursor nsave : Nat) : String :=
   match parse pat with
   | .err k pos => s!"err {k.name} {pos}"
@@ -66,7 +58,7 @@ def dispatchPatternSem : Handler := fun st fam a =>
     withView st.img k fun v =>
       let coh := match v.kind with
         | .view => true
-        | .file => secsDisjoint v.secs
+        | .file => secsDisjointB v.secs
       answer (ofView v) coh (unhex pat).toList (num cursor) (num nsave)
   | _, _ => none
 
